@@ -22,6 +22,7 @@ git apply $S/$M.patch.diff || { echo "PATCH DOES NOT APPLY" | tee -a $log; exit 
 run_demo; mut=$?
 rm -f $place   # the demo must not be part of the suite run
 pk=""; for c in $crates; do n=$(grep -m1 '^name' crates/$c/Cargo.toml | sed 's/.*"\(.*\)"/\1/'); pk="$pk -p $n"; done
+[ -n "${SUITE_PK:-}" ] && pk="$SUITE_PK"   # override: wider suite for patches to a shared crate
 cargo nextest run $pk --offline --no-fail-fast >> $log 2>&1; suite=$?
 git checkout -q -- .
 echo "[confirm] demo_without_patch_exit=$base demo_with_patch_exit=$mut crate_suites_with_patch_exit=$suite" | tee -a $log
